@@ -11,9 +11,9 @@ open Sigc.Model
 theorem R.fail {s : St} {t : Spec.LSt} (hR : R s t) (m m' : String) : R (s.fail m) (t.fail m') := by
   unfold St.fail Spec.LSt.fail
   have h1 : ∀ e, R { s with err := e } t := fun e =>
-    ⟨hR.T, hR.S, hR.G, hR.C, hR.K, hR.sigs, hR.ownedT, hR.ownedK, hR.next, hR.depth, hR.steps, hR.trace, hR.k1, hR.k2⟩
+    ⟨hR.T, hR.S, hR.G, hR.C, hR.K, hR.sigs, hR.ownedT, hR.ownedK, hR.ownedG, hR.next, hR.depth, hR.steps, hR.trace, hR.k1, hR.k2⟩
   have h2 : ∀ (s0 : St) e, R s0 t → R s0 { t with err := e } := fun s0 e h =>
-    ⟨h.T, h.S, h.G, h.C, h.K, h.sigs, h.ownedT, h.ownedK, h.next, h.depth, h.steps, h.trace, h.k1, h.k2⟩
+    ⟨h.T, h.S, h.G, h.C, h.K, h.sigs, h.ownedT, h.ownedK, h.ownedG, h.next, h.depth, h.steps, h.trace, h.k1, h.k2⟩
   cases s.err <;> cases t.err <;> simp only
   · exact h2 _ _ (h1 _)
   · exact h1 _
@@ -23,13 +23,13 @@ theorem R.fail {s : St} {t : Spec.LSt} (hR : R s t) (m m' : String) : R (s.fail 
 theorem R.failL {s : St} {t : Spec.LSt} (hR : R s t) (m : String) : R (s.fail m) t := by
   unfold St.fail
   cases s.err <;> simp only
-  · exact ⟨hR.T, hR.S, hR.G, hR.C, hR.K, hR.sigs, hR.ownedT, hR.ownedK, hR.next, hR.depth, hR.steps, hR.trace, hR.k1, hR.k2⟩
+  · exact ⟨hR.T, hR.S, hR.G, hR.C, hR.K, hR.sigs, hR.ownedT, hR.ownedK, hR.ownedG, hR.next, hR.depth, hR.steps, hR.trace, hR.k1, hR.k2⟩
   · exact hR
 
 theorem R.failR {s : St} {t : Spec.LSt} (hR : R s t) (m : String) : R s (t.fail m) := by
   unfold Spec.LSt.fail
   cases t.err <;> simp only
-  · exact ⟨hR.T, hR.S, hR.G, hR.C, hR.K, hR.sigs, hR.ownedT, hR.ownedK, hR.next, hR.depth, hR.steps, hR.trace, hR.k1, hR.k2⟩
+  · exact ⟨hR.T, hR.S, hR.G, hR.C, hR.K, hR.sigs, hR.ownedT, hR.ownedK, hR.ownedG, hR.next, hR.depth, hR.steps, hR.trace, hR.k1, hR.k2⟩
   · exact hR
 
 /-! ## `signal_base::impl()` -/
@@ -63,7 +63,7 @@ theorem R_ensure {s : St} {t : Spec.LSt} (hR : R s t) (g : Nat) :
       have hle : SigsLe t.sigs t.next (aset t.sigs s.next {}) := SigsLe.aset_new (by intro c hc; simp at hc)
       have hn : t.next ≤ s.next + 1 := by rw [hR.next]; omega
       exact ⟨hR.T, hR.S, rfl, ptrs_mono hn hle hR.C, ptrs_mono hn hle hR.K,
-        hR.sigs.set _ sigR_empty, hR.ownedT, ptrs_mono hn hle hR.ownedK, rfl, hR.depth, hR.steps, hR.trace,
+        hR.sigs.set _ sigR_empty, hR.ownedT, ptrs_mono hn hle hR.ownedK, hR.ownedG, rfl, hR.depth, hR.steps, hR.trace,
         hR.k1, hR.k2⟩
 
 /-! ## `signal_impl::insert` -/
@@ -132,12 +132,18 @@ theorem R_insert {s : St} {t : Spec.LSt} (hR : R s t) (i : Nat) (first : Bool) (
         · subst e; simp at hlt
     have hn : t.next ≤ t.next + 1 := Nat.le_succ _
     exact ⟨hR.T, hR.S, hR.G, ptrs_mono hn hle hR.C, ptrs_mono hn hle hR.K,
-      hR.sigs.set i ⟨hcells, hr.active, hr.dirty, hr.limbo⟩, hR.ownedT, ptrs_mono hn hle hR.ownedK,
+      hR.sigs.set i ⟨hcells, hr.active, hr.dirty, hr.limbo⟩, hR.ownedT, ptrs_mono hn hle hR.ownedK, hR.ownedG,
       by simp [Spec.setSig, Model.setImpl, hR.next], hR.depth, hR.steps, hR.trace, hR.k1, hR.k2⟩
 
 /-! ## the last reference to a list goes away -/
 
-theorem R_gc {s : St} {t : Spec.LSt} (hs : Emit.Inv s) (hR : R s t) (i : Nat) : R (gcImpl s i) (Spec.gcSig t i) := by
+/-- `gcImpl` vs `gcSig`; of the invariant only the facts about `impls` / `next` are used (so the lemma also applies
+    after a change of `G`) -/
+theorem R_gc' {s : St} {t : Spec.LSt} (hkeys : (s.impls.map (·.1)).Nodup)
+    (hlt : ∀ i im, aget s.impls i = some im → i < s.next ∧ ∀ k ∈ Emit.cids im, k < s.next)
+    (hdisj : ∀ i j im jm, aget s.impls i = some im → aget s.impls j = some jm → i ≠ j →
+      ∀ k ∈ Emit.cids im, k ∉ Emit.cids jm)
+    (hR : R s t) (i : Nat) : R (gcImpl s i) (Spec.gcSig t i) := by
   unfold gcImpl Spec.gcSig
   rcases hR.sigs.get i with ⟨h1, h2⟩ | ⟨im, g, h1, h2, hr⟩
   · simp only [h1, h2]; exact hR
@@ -149,13 +155,43 @@ theorem R_gc {s : St} {t : Spec.LSt} (hs : Emit.Inv s) (hR : R s t) (i : Nat) : 
       have hgone : ∀ cid ∈ im.cells.map (·.id), Gone (adel t.sigs i) t.next cid := by
         intro cid hc
         rw [gone_iff]
-        refine ⟨by rw [hR.next]; exact (hs.lt i im h1).2 cid hc, ?_⟩
+        refine ⟨by rw [hR.next]; exact (hlt i im h1).2 cid hc, ?_⟩
         intro hh
         obtain ⟨q, hq, hin⟩ := hasId_of_AR hsigs hh
         obtain ⟨hq1, hq2⟩ := Emit.mem_adel hq
-        exact hs.disj q.1 i q.2 im (Emit.aget_of_mem_nodup hs.keys (show (q.1, q.2) ∈ s.impls from hq1)) h1 hq2 cid hin hc
+        exact hdisj q.1 i q.2 im (Emit.aget_of_mem_nodup hkeys (show (q.1, q.2) ∈ s.impls from hq1)) h1 hq2 cid hin hc
       exact ⟨hR.T, hR.S, rfl, ptrs_null hle _ hgone hR.C, ptrs_null hle _ hgone hR.K, hsigs, hR.ownedT,
-        ptrs_null hle _ hgone hR.ownedK, hR.next, hR.depth, hR.steps, hR.trace, hR.k1, hR.k2⟩
+        ptrs_null hle _ hgone hR.ownedK, hR.ownedG, hR.next, hR.depth, hR.steps, hR.trace, hR.k1, hR.k2⟩
     · exact hR
+
+theorem R_gc {s : St} {t : Spec.LSt} (hs : Emit.Inv s) (hR : R s t) (i : Nat) : R (gcImpl s i) (Spec.gcSig t i) :=
+  R_gc' hs.keys hs.lt hs.disj hR i
+
+/-! ## a signal object is destroyed (`delG`, and the death of a functor-owned signal in `collect`) -/
+
+theorem R_dropHandle {s : St} {t : Spec.LSt} (hs : Emit.Inv s) (hR : R s t) (g : Nat) :
+    R (Model.dropHandle s g) (Spec.dropHandle t g) := by
+  unfold Model.dropHandle Spec.dropHandle
+  rw [hR.G]
+  cases hg : aget s.G g with
+  | none => exact hR
+  | some hd =>
+    simp only
+    generalize hs1 : (if hd.fl.isTrackable = true then Model.invalidateTrackable s hd.trk else s) = s1
+    generalize ht1 : (if hd.fl.isTrackable = true then Spec.invalidateTrackable t hd.trk else t) = t1
+    have g1 : Emit.Good0 s s1 := by
+      subst hs1; split
+      · exact Emit.good_invalidateTrackable hs _
+      · exact Emit.Good.refl hs
+    have hR1 : R s1 t1 := by
+      subst hs1; subst ht1; split
+      · exact R_invalidateTrackable hs hR _
+      · exact hR
+    rw [hR1.G]
+    have i1 := g1.inv
+    cases him : hd.impl with
+    | none => exact hR1.updG _
+    | some im =>
+      exact R_gc' (s := { s1 with G := Model.adel s1.G g }) i1.keys i1.lt i1.disj (hR1.updG _) im
 
 end Sigc.Refine
